@@ -1,7 +1,9 @@
 """Generated/Json.lean from loguru/_handler.py and loguru/_logger.py (C14).
 
 What is tied (DESIGN §1.3 G, §4 C14):
-* the two dict literals of `Handler._serialize_record` are translated key by key into Lean terms
+* `Handler._serialize_record` is evaluated SYMBOLICALLY (aliases inlined, if/else == conditional
+  expression, one level of private helper followed; see `Evaluator`) to the expression it returns;
+  the two dict literals found there are translated key by key into Lean terms
   (`Json.Gen.serializable`, `Json.Gen.exceptionSummary`); every leaf expression must be one of the
   record reads listed in LEAVES / EXC_LEAVES, otherwise extraction fails closed.  A renamed key, a
   dropped key or a leaf read from another record field changes the generated term and breaks
@@ -54,9 +56,13 @@ HARMLESS = {"skipkeys": "False", "check_circular": "True", "allow_nan": "True", 
             "separators": "None", "sort_keys": "False"}
 
 
-def tr_dict(node, leaves, depth=1):
+def tr_dict(node, leaves, depth=1, hook=None):
     """a dict literal with constant string keys -> Lean `PyVal.dict` term"""
     if not isinstance(node, ast.Dict):
+        if hook is not None:
+            r = hook(node)
+            if r is not None:
+                return r
         src = ast.unparse(node)
         if src in leaves:
             return leaves[src]
@@ -71,7 +77,7 @@ def tr_dict(node, leaves, depth=1):
     term = "PyMembers.nil"
     ind = "  " * depth
     for k, v in reversed(list(zip(keys, node.values))):
-        term = "(PyMembers.cons %s %s\n%s%s)" % (lean_chars(k), tr_dict(v, leaves, depth + 1), ind, term)
+        term = "(PyMembers.cons %s %s\n%s%s)" % (lean_chars(k), tr_dict(v, leaves, depth + 1, hook), ind, term)
     return "(PyVal.dict\n%s%s)" % (ind, term)
 
 
@@ -94,49 +100,227 @@ def find_stmt_list(fn, pred):
     return None, None
 
 
+# ----------------------------------------------------------------------------- symbolic evaluation
+# `_serialize_record` is read SEMANTICALLY, not textually: its straight-line body is evaluated
+# symbolically to the expression it returns, over the two parameters (renamed to `text`, `record`).
+#   * single-assignment locals are inlined (aliases of attribute expressions, dict literals built
+#     in several steps);
+#   * `if c: x = a [else: x = b]` and `x = a if c else b` are the same conditional expression;
+#     `if c: return a` followed by `return b` likewise; `A if X is not None else B` is flipped to
+#     `B if X is None else A`;
+#   * a call to a private helper (static method of Handler, or module-level function) with a
+#     straight-line body is followed one level deep.
+# Anything else (loops, attribute/subscript stores, calls it does not know, reads of `self` or of
+# globals) is outside the subset: the extraction fails closed.
+class _Subst(ast.NodeTransformer):
+    def __init__(self, env, ev):
+        self.env, self.ev = env, ev
+
+    def visit_Name(self, node):
+        if isinstance(node.ctx, ast.Load) and node.id in self.env:
+            return self.env[node.id]
+        return node
+
+    def visit_Call(self, node):
+        node = self.generic_visit(node)
+        helper = self.ev.helper_of(node.func)
+        if helper is not None:
+            return self.ev.inline(helper, node)
+        return node
+
+    def visit_IfExp(self, node):
+        node = self.generic_visit(node)
+        return flip(node)
+
+
+def flip(node):
+    """canonical polarity: `A if X is not None else B`  ->  `B if X is None else A`; `not c` likewise"""
+    t = node.test
+    if isinstance(t, ast.Compare) and len(t.ops) == 1 and isinstance(t.ops[0], ast.IsNot) \
+            and isinstance(t.comparators[0], ast.Constant) and t.comparators[0].value is None:
+        return ast.IfExp(test=ast.Compare(left=t.left, ops=[ast.Is()], comparators=t.comparators),
+                         body=node.orelse, orelse=node.body)
+    if isinstance(t, ast.UnaryOp) and isinstance(t.op, ast.Not):
+        return ast.IfExp(test=t.operand, body=node.orelse, orelse=node.body)
+    return node
+
+
+class Evaluator:
+    def __init__(self, tree, cls_name):
+        self.tree, self.cls_name, self.depth = tree, cls_name, 0
+        self.cls = None
+        for node in tree.body:
+            if isinstance(node, ast.ClassDef) and node.name == cls_name:
+                self.cls = node
+
+    def helper_of(self, func):
+        """the FunctionDef a call goes to when it is a private helper we may follow, else None"""
+        if isinstance(func, ast.Attribute) and isinstance(func.value, ast.Name) and func.attr.startswith("_") \
+                and func.value.id in (self.cls_name, "self", "cls") and self.cls is not None:
+            for sub in self.cls.body:
+                if isinstance(sub, ast.FunctionDef) and sub.name == func.attr:
+                    return sub
+        if isinstance(func, ast.Name) and func.id.startswith("_"):
+            for sub in self.tree.body:
+                if isinstance(sub, ast.FunctionDef) and sub.name == func.id:
+                    return sub
+        return None
+
+    def inline(self, fn, call):
+        if self.depth >= 1:
+            raise Unsupported("helper call nested more than one level: " + fn.name)
+        if call.keywords or any(isinstance(a, ast.Starred) for a in call.args):
+            raise Unsupported("helper %s called with keywords/star" % fn.name)
+        params = [a.arg for a in fn.args.args]
+        decos = [ast.unparse(d) for d in fn.decorator_list]
+        if decos == ["staticmethod"] or (isinstance(call.func, ast.Name) and not decos):
+            pass
+        elif not decos and params and params[0] == "self" and ast.unparse(call.func).startswith("self."):
+            params = params[1:]          # plain method: `self` stays unbound, any use of it is rejected later
+        else:
+            raise Unsupported("helper %s has decorators %r" % (fn.name, decos))
+        if fn.args.vararg or fn.args.kwarg or fn.args.kwonlyargs or fn.args.defaults or len(params) != len(call.args):
+            raise Unsupported("helper %s signature" % fn.name)
+        self.depth += 1
+        try:
+            return self.block(fn.body, dict(zip(params, call.args)))
+        finally:
+            self.depth -= 1
+
+    def expr(self, node, env):
+        import copy
+        return _Subst(env, self).visit(copy.deepcopy(node))
+
+    def assigns(self, stmts, env):
+        """a branch made of plain local assignments only"""
+        for st in stmts:
+            if isinstance(st, ast.Assign) and len(st.targets) == 1 and isinstance(st.targets[0], ast.Name):
+                env[st.targets[0].id] = self.expr(st.value, env)
+            elif isinstance(st, ast.Pass):
+                pass
+            else:
+                raise Unsupported("statement outside the subset: " + ast.unparse(st)[:80])
+
+    @staticmethod
+    def returns(stmts):
+        return bool(stmts) and isinstance(stmts[-1], ast.Return)
+
+    def block(self, stmts, env):
+        """the expression a straight-line block returns"""
+        for i, st in enumerate(stmts):
+            if isinstance(st, ast.Expr) and isinstance(st.value, ast.Constant) and isinstance(st.value.value, str):
+                continue                                                  # docstring
+            if isinstance(st, ast.Return):
+                if st.value is None:
+                    raise Unsupported("bare return")
+                return self.expr(st.value, env)
+            if isinstance(st, ast.If):
+                cond = self.expr(st.test, env)
+                if self.returns(st.body):
+                    a = self.block(st.body, dict(env))
+                    b = self.block(list(st.orelse) + list(stmts[i + 1:]), dict(env))
+                    return flip(ast.IfExp(test=cond, body=a, orelse=b))
+                if self.returns(st.orelse):
+                    b = self.block(st.orelse, dict(env))
+                    a = self.block(list(st.body) + list(stmts[i + 1:]), dict(env))
+                    return flip(ast.IfExp(test=cond, body=a, orelse=b))
+                e1, e2 = dict(env), dict(env)
+                self.assigns(st.body, e1)
+                self.assigns(st.orelse, e2)
+                for name in set(e1) | set(e2):
+                    v1, v2 = e1.get(name), e2.get(name)
+                    if v1 is None or v2 is None:
+                        raise Unsupported("local %s bound on one branch only" % name)
+                    if ast.dump(v1) != ast.dump(v2):
+                        env[name] = flip(ast.IfExp(test=cond, body=v1, orelse=v2))
+                continue
+            self.assigns([st], env)
+        raise Unsupported("block does not end in a return")
+
+
+def same(a, b):
+    return ast.dump(a) == ast.dump(b)
+
+
+class _Replace(ast.NodeTransformer):
+    def __init__(self, what, by):
+        self.what, self.by = ast.dump(what), by
+
+    def generic_visit(self, node):
+        if isinstance(node, ast.AST) and ast.dump(node) == self.what:
+            return ast.Name(id=self.by, ctx=ast.Load())
+        return super().generic_visit(node)
+
+
+def split_exception_summary(node):
+    """`X if X is None else {…}` / `None if X is None else {…}`  ->  (X, dict over the name `exception`)"""
+    if not (isinstance(node, ast.IfExp) and isinstance(node.test, ast.Compare) and len(node.test.ops) == 1
+            and isinstance(node.test.ops[0], ast.Is) and isinstance(node.test.comparators[0], ast.Constant)
+            and node.test.comparators[0].value is None and isinstance(node.orelse, ast.Dict)):
+        return None
+    x = node.test.left
+    none_branch = node.body
+    if not (same(none_branch, x) or (isinstance(none_branch, ast.Constant) and none_branch.value is None)):
+        return None
+    import copy
+    return x, _Replace(x, "exception").visit(copy.deepcopy(node.orelse))
+
+
 def generate():
     errors = []
     body = "import LoguruModel.Json.Base\nset_option linter.unusedVariables false\nnamespace Json.Gen\nopen Json\n\n"
     try:
         tree, _ = parse_module("_handler.py")
         fn = find_func(tree, "_serialize_record", cls="Handler")
-        if [a.arg for a in fn.args.args] != ["text", "record"]:
-            raise Unsupported("_serialize_record arguments: %r" % [a.arg for a in fn.args.args])
-        # a pure function of its two arguments: static, and no name read other than these
-        if [ast.unparse(d) for d in fn.decorator_list] != ["staticmethod"]:
-            raise Unsupported("_serialize_record is not a @staticmethod: %r" % [ast.unparse(d) for d in fn.decorator_list])
-        allowed = {"text", "record", "exception", "serializable", "json", "str", "bool", "None"}
-        read = {n.id for b in fn.body for n in ast.walk(b) if isinstance(n, ast.Name) and isinstance(n.ctx, ast.Load)}
-        if not read <= allowed:
-            raise Unsupported("_serialize_record reads other names: %r" % sorted(read - allowed))
-        st = fn.body
-        if len(st) != 4:
-            raise Unsupported("_serialize_record has %d statements, expected 4" % len(st))
-        if ast.unparse(st[0]) != "exception = record['exception']":
-            raise Unsupported("first statement: " + ast.unparse(st[0]))
-        iff = st[1]
-        if not (isinstance(iff, ast.If) and ast.unparse(iff.test) == "exception is not None" and not iff.orelse
-                and len(iff.body) == 1 and isinstance(iff.body[0], ast.Assign)
-                and ast.unparse(iff.body[0].targets[0]) == "exception" and isinstance(iff.body[0].value, ast.Dict)):
-            raise Unsupported("exception summary statement has another shape")
-        exc_term = tr_dict(iff.body[0].value, EXC_LEAVES)
-        ser = st[2]
-        if not (isinstance(ser, ast.Assign) and ast.unparse(ser.targets[0]) == "serializable"
-                and isinstance(ser.value, ast.Dict)):
-            raise Unsupported("serializable assignment has another shape")
-        ser_term = tr_dict(ser.value, LEAVES)
-        ret = st[3]
-        if not isinstance(ret, ast.Return):
-            raise Unsupported("last statement is not a return")
-        val, suffix = ret.value, ""
+        params = [a.arg for a in fn.args.args]
+        decos = [ast.unparse(d) for d in fn.decorator_list]
+        if decos == ["staticmethod"] and len(params) == 2:
+            pass
+        elif decos == [] and len(params) == 3 and params[0] == "self":
+            params = params[1:]      # a plain method is fine as long as the value never reads `self` (checked below)
+        else:
+            raise Unsupported("_serialize_record signature: %r %r" % (decos, params))
+        if fn.args.vararg or fn.args.kwarg or fn.args.kwonlyargs or fn.args.defaults:
+            raise Unsupported("_serialize_record signature has defaults/star arguments")
+        ev = Evaluator(tree, "Handler")
+        env = {params[0]: ast.Name(id="text", ctx=ast.Load()), params[1]: ast.Name(id="record", ctx=ast.Load())}
+        val = ev.block(fn.body, env)
+        # ---- the returned value: json.dumps(<dict>, kw…) [+ literal …]
+        suffix = ""
         while isinstance(val, ast.BinOp) and isinstance(val.op, ast.Add) and isinstance(val.right, ast.Constant) \
                 and isinstance(val.right.value, str):
             suffix = val.right.value + suffix
             val = val.left
-        if not (isinstance(val, ast.Call) and ast.unparse(val.func) == "json.dumps"):
-            raise Unsupported("return value is not json.dumps(...) [+ literal]: " + ast.unparse(ret.value))
-        if [ast.unparse(a) for a in val.args] != ["serializable"]:
-            raise Unsupported("json.dumps positional arguments: " + ast.unparse(val))
+        dumps_names = {"json.dumps"}
+        for node in tree.body:
+            if isinstance(node, ast.ImportFrom) and node.module == "json":
+                dumps_names |= {a.asname or a.name for a in node.names if a.name == "dumps"}
+            if isinstance(node, ast.Import):
+                dumps_names |= {(a.asname or a.name) + ".dumps" for a in node.names if a.name == "json"}
+        if not (isinstance(val, ast.Call) and ast.unparse(val.func) in dumps_names):
+            raise Unsupported("return value is not json.dumps(...) [+ literal]: " + ast.unparse(val)[:200])
+        if len(val.args) != 1 or not isinstance(val.args[0], ast.Dict):
+            raise Unsupported("json.dumps positional arguments: " + ast.unparse(val)[:200])
+        # ---- the dict: leaves must be record reads of the table; exactly one leaf is the exception summary
+        found = []
+
+        class ExcLeaves(dict):
+            pass
+
+        def leaf_hook(node):
+            sp = split_exception_summary(node)
+            if sp is None:
+                return None
+            x, d = sp
+            if ast.unparse(x) != "record['exception']":
+                raise Unsupported("exception summary is taken from " + ast.unparse(x))
+            found.append(d)
+            return "exception"
+
+        ser_term = tr_dict(val.args[0], LEAVES, hook=leaf_hook)
+        if len(found) != 1:
+            raise Unsupported("%d exception summaries in the serialised dict" % len(found))
+        exc_term = tr_dict(found[0], EXC_LEAVES)
         default_is_str, ensure_ascii = False, True
         for kw in val.keywords:
             src = ast.unparse(kw.value)
@@ -167,21 +351,44 @@ def generate():
 
         # ---- emit: serialisation is applied to the formatted text, last
         em = find_func(tree, "emit", cls="Handler")
-        lst, i = find_stmt_list(em, lambda s: isinstance(s, ast.If) and ast.unparse(s.test) == "self._serialize")
+
+        def serialize_stmt(st):
+            """`if self._serialize: V = self._serialize_record(V, record)` or the conditional-expression form;
+            returns the local V holding the formatted text"""
+            if isinstance(st, ast.If) and ast.unparse(st.test) == "self._serialize" and not st.orelse and len(st.body) == 1:
+                a = st.body[0]
+                call = a.value if isinstance(a, ast.Assign) else None
+            elif isinstance(st, ast.Assign) and isinstance(st.value, ast.IfExp) and ast.unparse(st.value.test) == "self._serialize":
+                a, call = st, st.value.body
+                if ast.unparse(st.value.orelse) != ast.unparse(st.targets[0]):
+                    return None
+            else:
+                return None
+            if not (isinstance(a, ast.Assign) and len(a.targets) == 1 and isinstance(a.targets[0], ast.Name)
+                    and isinstance(call, ast.Call) and not call.keywords
+                    and ast.unparse(call.func) in ("self._serialize_record", "Handler._serialize_record", "type(self)._serialize_record")):
+                return None
+            v = a.targets[0].id
+            if [ast.unparse(x) for x in call.args] != [v, "record"]:
+                return None
+            return v
+
+        lst, i = find_stmt_list(em, lambda st: serialize_stmt(st) is not None)
         if lst is None:
-            raise Unsupported("emit: no `if self._serialize:` statement")
-        iff = lst[i]
-        if not (len(iff.body) == 1 and not iff.orelse
-                and ast.unparse(iff.body[0]) == "formatted = self._serialize_record(formatted, record)"):
-            raise Unsupported("emit: serialize branch has another shape: " + ast.unparse(iff))
+            raise Unsupported("emit: no statement serialising the formatted text under `self._serialize`")
+        var = serialize_stmt(lst[i])
         later = lst[i + 1:]
-        if any(assigns_to(s, "formatted") for s in later):
-            raise Unsupported("emit: `formatted` is reassigned after serialisation")
-        if not later or ast.unparse(later[0]) != "str_record = Message(formatted)":
+        if any(assigns_to(st, var) for st in later):
+            raise Unsupported("emit: `%s` is reassigned after serialisation" % var)
+        wrapped = [n for st in later for n in ast.walk(st) if isinstance(n, ast.Call) and ast.unparse(n.func) == "Message"]
+        if len(wrapped) != 1 or [ast.unparse(x) for x in wrapped[0].args] != [var] or wrapped[0].keywords:
             raise Unsupported("emit: serialised text is not what is wrapped into Message")
         n_ser = sum(1 for n in ast.walk(em) if isinstance(n, ast.Attribute) and n.attr == "_serialize_record")
         if n_ser != 1:
             raise Unsupported("emit: %d uses of _serialize_record" % n_ser)
+        n_msg = sum(1 for n in ast.walk(em) if isinstance(n, ast.Call) and ast.unparse(n.func) == "Message")
+        if n_msg != 1:
+            raise Unsupported("emit: %d Message(...) constructions" % n_msg)
         body += "/-- `emit`: `if self._serialize: formatted = self._serialize_record(formatted, record)` is the last\n"
         body += "    assignment to `formatted` before `Message(formatted)` (checked on the AST) -/\n"
         body += "def serializeAfterFormatting : Bool := true\n\n"
@@ -201,6 +408,10 @@ def generate():
             if assigns_to(s, "colorize"):
                 if rule is not None:
                     raise Unsupported("add: colorize assigned more than once before the sink dispatch")
+                if isinstance(s, ast.Assign) and isinstance(s.value, ast.IfExp) and ast.unparse(s.targets[0]) == "colorize" \
+                        and ast.unparse(s.value.orelse) == "colorize":
+                    # `colorize = False if <test> else colorize`  ==  `if <test>: colorize = False`
+                    s = ast.If(test=s.value.test, body=[ast.Assign(targets=s.targets, value=s.value.body)], orelse=[])
                 if not (isinstance(s, ast.If) and not s.orelse and len(s.body) == 1
                         and isinstance(s.body[0], ast.Assign) and ast.unparse(s.body[0].targets[0]) == "colorize"
                         and isinstance(s.body[0].value, ast.Constant) and isinstance(s.body[0].value.value, bool)):
